@@ -439,8 +439,12 @@ def run(ck: vlib.Check):
             keys = [k for k in common if "Digi" in k or "Mc" in k or "Trk" in k or "Track" in k][: (6 if ck.tier != "thorough" else 40)] or common[:6]
             same_path += [[cg[0], other[0], keys], [other[0], cg[0], keys]]
     ck.cov["same_path_pairs"] = [[a, b, len(k)] for a, b, k in same_path]
+    prepass = [[f, sorted(b["key"] for b in survey[f])] for f in sorted(survey)]
+    if ck.seed % 2:
+        prepass = prepass[::-1]
+    ck.cov["prepass_order"] = [f for f, _ in prepass]
     cpath = ck.bdir / "concat.json"
-    cpath.write_text(json.dumps({"lists": lists, "same_path_pairs": same_path}))
+    cpath.write_text(json.dumps({"lists": lists, "same_path_pairs": same_path, "prepass": prepass}))
     rc, so, se = vlib.run_impl_script("c02_impl.py", ["concat", datadir, cpath], timeout=3000, cache_dir=ck.bdir / "nb_concat")
     allm = []
     if rc != 0:
@@ -450,8 +454,22 @@ def run(ck: vlib.Check):
         ck.cases_bulk(r["evaluations"], {bytes.fromhex(h) for h in r["hashes"]})
         allm += r["mismatches"]
         ck.cov["concat_lists"] = len(lists)
+        concat_refs = r.get("reference_reads", {})
+        if ck.tier == "thorough":        # the opposite file order in a process of its own
+            cp2 = ck.bdir / "concat_rev.json"
+            cp2.write_text(json.dumps({"lists": [], "same_path_pairs": [], "prepass": prepass[::-1]}))
+            rc2, so2, se2 = vlib.run_impl_script("c02_impl.py", ["concat", datadir, cp2], timeout=3000, cache_dir=ck.bdir / "nb_concat2")
+            if rc2 != 0:
+                ck.tie_broken("correspondence", "implementation-concat (reversed file order)", se2[-1200:])
+            else:
+                r2 = json.loads(so2)
+                ck.cases_bulk(r2["evaluations"], {bytes.fromhex(h) + b"r" for h in r2["hashes"]})
+                allm += r2["mismatches"]
+                for k2, v2 in r2.get("reference_reads", {}).items():
+                    concat_refs["rev:" + k2] = v2
     n_model_cmp = 0
     outs_json = {}
+    concat_refs = locals().get("concat_refs", {})
     for fname, (rc, so, se) in outs:
         if rc != 0:
             ck.tie_broken("correspondence", f"implementation-run {fname}", se[-1500:])
@@ -504,6 +522,18 @@ def run(ck: vlib.Check):
             if len(ck.cov["samples"]) < 8 and kind == "synth":
                 ck.sample({"file": fname, "branch": rec["branch"], "case": case, "model": {"asked": asked, "counts": counts},
                            "implementation": {"asked": rec["asked"], "counts": rec["counts"], "cg_type": rec.get("cg_type")}})
+    # a file read in a process that read OTHER files before (the multi-file process) equals the same file read in a process of its own
+    n_hist = 0
+    for key, (t_multi, d_multi) in sorted(concat_refs.items()):
+        f_, path_ = key[4:].split("|", 1) if key.startswith("rev:") else key.split("|", 1)
+        own = (outs_json.get(f_) or {}).get("full_digests", {}).get(path_)
+        if own is None:
+            continue
+        n_hist += 1
+        if own != [t_multi, d_multi]:
+            allm.append({"kind": "read-after-other-files", "file": f_, "branch": path_, "detail": [], "type_equal": own[0] == t_multi, "values_equal": False,
+                         "got_type": t_multi[:300], "want_type": own[0][:300]})
+    ck.cov["reads_compared_across_processes"] = n_hist
     ck.cov["model_vs_implementation_cases"] = n_model_cmp
     native_route(ck, outs_json, per_file)
     ck.cov["exhaustive"] = False
